@@ -11,6 +11,7 @@ use std::panic::{catch_unwind, AssertUnwindSafe};
 
 thread_local! {
     static LAST_PANIC: RefCell<Option<String>> = const { RefCell::new(None) };
+    static GUARD_DEPTH: std::cell::Cell<usize> = const { std::cell::Cell::new(0) };
     static STATS: RefCell<BTreeMap<&'static str, u64>> = const { RefCell::new(BTreeMap::new()) };
     static MARKS: RefCell<BTreeSet<&'static str>> = const { RefCell::new(BTreeSet::new()) };
 }
@@ -36,13 +37,20 @@ pub fn install_panic_hook() {
             "<non-string panic>".to_string()
         };
         let first = msg.lines().find(|l| !l.trim().is_empty()).unwrap_or("").trim().to_string();
+        // a panic outside `guarded` is a bug of the harness itself: never swallow it
+        if GUARD_DEPTH.with(|d| d.get()) == 0 || std::env::var("SIMCHECK_PRINT_PANICS").is_ok() {
+            eprintln!("[panic] {} {}", loc, first);
+        }
         LAST_PANIC.with(|p| *p.borrow_mut() = Some(format!("{} {}", loc, first)));
     }));
 }
 
 /// Run `f`, converting a panic into `Err("file:line message")`.
 pub fn guarded<T>(f: impl FnOnce() -> T) -> std::result::Result<T, String> {
-    match catch_unwind(AssertUnwindSafe(f)) {
+    GUARD_DEPTH.with(|d| d.set(d.get() + 1));
+    let r = catch_unwind(AssertUnwindSafe(f));
+    GUARD_DEPTH.with(|d| d.set(d.get().saturating_sub(1)));
+    match r {
         Ok(v) => Ok(v),
         Err(_) => Err(LAST_PANIC
             .with(|p| p.borrow_mut().take())
@@ -133,6 +141,7 @@ pub fn build(cfg: &Config, how: BuildHow) -> std::result::Result<Scanner, std::r
         match how {
             BuildHow::Cached => ScannerBuilder::new().add_scanner_modes(&to_modes(cfg)).build(),
             BuildHow::Uncached => ScannerBuilder::new().add_scanner_modes(&to_modes(cfg)).build_uncached(),
+            BuildHow::TryFromVec => Scanner::try_from(to_modes(cfg)),
             BuildHow::AddPatterns => {
                 let pats: Vec<String> = cfg[0].patterns.iter().map(|p| p.pattern.clone()).collect();
                 ScannerBuilder::new().add_patterns(pats).build()
@@ -243,7 +252,7 @@ pub fn cfg_transition(cfg: &Config, mode: usize, token_type: usize) -> Option<us
     cfg.get(mode)?
         .transitions
         .iter()
-        .find(|(t, _)| *t == token_type)
+        .find(|(t, _)| *t as u32 == token_type as u32)
         .map(|(_, m)| *m)
 }
 
